@@ -1,4 +1,5 @@
 import Qfx.Drv.Util
+import Qfx.Drv.Valid
 import Qfx.Model.Session
 namespace Qfx.Drv
 open Qfx.Sess
@@ -65,7 +66,24 @@ def renderResult (s : Sess) (obs : List Obs) (status : String) : String :=
 
 def kvLookup (kv : List (String × String)) (k : String) : Option String := (kv.find? (·.1 == k)).map (·.2)
 
-def parseCfg? (toks : List String) : Option (Cfg × Int × Int) := do
+/-- the validator of a `cfg` line: `vs=<5 bits>` (CheckFieldsOutOfOrder RejectInvalidMessage AllowUnknownMessageFields
+    CheckUserDefinedFields CheckFieldsHaveValues, as in family `valid`; absent = the defaults), `dd=<name>` the application
+    dictionary (setting DataDictionary / AppDataDictionary) and `tdd=<name>` the transport dictionary, both loaded before by
+    `ddict` ops; absent or `-` = none -/
+def parseVCfg? (dicts : String → Option Validate.VDict) (kv : List (String × String)) : Option VCfg := do
+  let st ← match kvLookup kv "vs" with
+    | none => some Validate.defaultSettings
+    | some b => parseBits b
+  let dict (k : String) : Option (Option Validate.VDict) := match kvLookup kv k with
+    | none => some none
+    | some "-" => some none
+    | some n => (dicts n).map some
+  let app ← dict "dd"
+  let tr ← dict "tdd"
+  if app.isNone && tr.isSome then none else
+  pure { app := app, tr := tr, settings := st }
+
+def parseCfg? (dicts : String → Option Validate.VDict) (toks : List String) : Option (Cfg × Int × Int) := do
   let kv ← toks.mapM fun t => match t.splitOn "=" with
     | [k, v] => some (k, v)
     | _ => none
@@ -90,7 +108,8 @@ def parseCfg? (toks : List String) : Option (Cfg × Int × Int) := do
     resetOnLogon := ← b "rol", resetOnLogout := ← b "rolo", resetOnDisconnect := ← b "rod",
     refreshOnLogon := ← b "refresh", persist := ← b "persist", skipLatency := ← b "skiplat",
     hb := ← i "hb", hbOverride := ← b "hbo", applVer := if (← n "bs") == 5 then "9" else "",
-    lookThroughPending := ← b "ltp", resetSeqTime := rst, lastSeqProcessed := lsp }
+    lookThroughPending := ← b "ltp", resetSeqTime := rst, lastSeqProcessed := lsp,
+    validator := ← parseVCfg? dicts kv }
   pure (cfg, ← i "s0", ← i "t0")
 
 def timerOf? : String → Option TimerEv
@@ -103,33 +122,58 @@ def rtimeOf? (w : String) : Option Int :=
   | some n => if n ≤ 1000000000 then some (Int.ofNat n) else none
   | none => none
 
-def sessStep (s : Sess) (w : List String) : Sess × String :=
-  let run (e : Ev) : Sess × String := let (s', obs, status) := step s e; (s', renderResult s' obs status)
+/-- what the generator says it planted into an inbound message: `!<kind>,<tag>` in front of the fields (for the monitor;
+    the model does not look at it) -/
+def dropPlant (toks : List String) : List String :=
+  match toks with
+  | t :: rest => if t.startsWith "!" then rest else toks
+  | [] => []
+
+structure SessDrv where
+  s : Sess
+  dicts : List (String × Validate.VDict) := []
+
+def SessDrv.dict? (d : SessDrv) (n : String) : Option Validate.VDict := (d.dicts.find? (·.1 == n)).map (·.2)
+
+/-- `ddict app|tr <NAME> <serialised AST>`: the dictionary the harness wrote as an XML file, through the C19 builder model -/
+def loadDict (toks : List String) : Option Validate.VDict :=
+  match parseAst toks with
+  | none => none
+  | some a => match buildModel a with
+    | .ok d => some (mkVDict a d)
+    | .error _ => none
+
+def sessStep (d : SessDrv) (w : List String) : SessDrv × String :=
+  let s := d.s
+  let run (e : Ev) : SessDrv × String := let (s', obs, status) := step s e; ({ d with s := s' }, renderResult s' obs status)
   match w with
-  | "cfg" :: rest => (match parseCfg? rest with
-      | some (cfg, s0, t0) => let s' := initSess cfg s0 t0; (s', renderResult s' [] "ok")
-      | none => (s, "bad-op"))
+  | "ddict" :: _ :: name :: toks => (match loadDict toks with
+      | some vd => ({ d with dicts := (name, vd) :: d.dicts }, "loaded")
+      | none => (d, "bad-op"))
+  | "cfg" :: rest => (match parseCfg? d.dict? rest with
+      | some (cfg, s0, t0) => let s' := initSess cfg s0 t0; ({ d with s := s' }, renderResult s' [] "ok")
+      | none => (d, "bad-op"))
   | ["connect"] => run .connect
   | ["in", "garbage"] => run (.incomingMsg none)
-  | "in" :: rest => (match parseFields? rest with
+  | "in" :: rest => (match parseFields? (dropPlant rest) with
       | some f => run (.incomingMsg (some { f := f }))
-      | none => (s, "bad-op"))
-  | "arrive" :: rest => (match parseFields? rest with
+      | none => (d, "bad-op"))
+  | "arrive" :: rest => (match parseFields? (dropPlant rest) with
       | some f => run (.arrive { f := f })
-      | none => (s, "bad-op"))
+      | none => (d, "bad-op"))
   | ["pop"] => run .pop
-  | ["timeout", e] => (match timerOf? e with | some e => run (.timeout e) | none => (s, "bad-op"))
+  | ["timeout", e] => (match timerOf? e with | some e => run (.timeout e) | none => (d, "bad-op"))
   | ["disc"] => run .disconnected
   | ["stop"] => run .stop
   | "send" :: rest => (match parseFields? rest with
       | some f => run (.send { kind := "D", seq := 0, f := f })
-      | none => (s, "bad-op"))
+      | none => (d, "bad-op"))
   | ["flush"] => run .flush
   | ["stime", "in"] => run (.sessionTime true true)
   | ["stime", "out"] => run (.sessionTime false true)
   | ["stime", "new"] => run (.sessionTime true false)
-  | ["rtime", n] => (match rtimeOf? n with | some t => run (.resetTime t) | none => (s, "bad-op"))
-  | _ => (s, "bad-op")
+  | ["rtime", n] => (match rtimeOf? n with | some t => run (.resetTime t) | none => (d, "bad-op"))
+  | _ => (d, "bad-op")
 
-def sessFamily : Family := { σ := Sess, init := initSess {} 1 1, step := sessStep }
+def sessFamily : Family := { σ := SessDrv, init := { s := initSess {} 1 1 }, step := sessStep }
 end Qfx.Drv
